@@ -262,6 +262,11 @@ class Checker:
         run.replayed()
         for k in case["prog"]:
             self.stmt_seen.add(k["t"])
+        if res.get("dynamic_missing"):
+            # the static agent delivered the main module, the dynamic agent did not (import failed under the inspector's sys.path)
+            sig = {"clause": "module", "main": case["main"], "scope": "module", "origin": "module", "skind": "module", "dkind": "absent"}
+            run.violation(sig, f"the dynamic agent does not deliver the main module ({res['dynamic_missing']}) while the static agent does, main={case['main']}\n{src}", {"case": ident, "source": src, "diff": ["", "module"]})
+            return
         # -- CPython's object graph vs the spec's Exec
         if res["xdump"] is None:
             die(f"C17: the inspector never reached the main module of {pkg}\n{src}")
